@@ -148,6 +148,23 @@ func runC03(c *fw.Ctx, cs fw.Case) {
 			}
 			c.Violate(key, "alpha-beta returns %v, exhaustive minimax over the same moves and leaves gives %v: %s", score, v, what)
 		}
+		// the repository's own Minimax (its validation reference) must agree with the independent one
+		// where it is defined: full exploration, static leaves
+		if rcfg.Explore == nil && rcfg.QuietExplore == nil && !rcfg.OnePlyIfChecked && depth <= 3 {
+			mb, _ := boardOf(root.h)
+			mbefore := adapt.TakeSnap(mb)
+			_, ms, mpv, merr := search.Minimax{Eval: search.Leaf{Eval: rcfg.Static}}.Search(budgetCtx(), fullWindow(), mb, depth)
+			if merr == nil {
+				c.Count("minimax_compared", 1)
+				if mg, ok := refsearch.FromEval(ms); !ok || !(mg.Eq(v) || before.Outcome == board.Draw) {
+					c.Violate("search:minimax-value", "Minimax returns %v, the independent minimax gives %v: %s", ms, v, what)
+				}
+				if len(mpv) > depth {
+					c.Violate("search:minimax-pv", "Minimax PV has %d moves at depth %d: %s", len(mpv), depth, what)
+				}
+				handBack(c, "search:minimax-handback", mbefore, mb, moveless, what)
+			}
+		}
 		// coverage
 		switch {
 		case v.Kind == refsearch.Win && v.Dist >= 3:
